@@ -657,9 +657,9 @@ Proof.
   apply (f_equal (fun w => match w with WToken t => tk_uri t | WGarbage => "" end)) in E. exact E.
 Qed.
 
-Lemma deliver_spec m r j relay h :
+Lemma deliver_spec_core m r j relay h :
   flows_ok m -> cfg_wf (mw_cfg m) -> jar_ok m j ->
-  spec_step m (Deliver r j relay h) (project (deliver (mw_cfg m) (mw_clock m) r j relay h)) = true.
+  spec_deliver_core m r j relay h (project (deliver (mw_cfg m) (mw_clock m) r j relay h)) = true.
 Proof.
   intros Hok Hcw Hj. destruct Hcw as (_ & _ & _ & Hwf).
   (* the interleaving clause *)
@@ -669,7 +669,7 @@ Proof.
             | None => true end = true).
   { intros o ->. destruct (faithful_delivery m r j relay) as [f|] eqn:Ef; [|reflexivity].
     rewrite (faithful_accepts m r j relay h f Hok Hwf Ef). simpl. rewrite String.eqb_refl. reflexivity. }
-  unfold spec_step.
+  unfold spec_deliver_core.
   destruct (deliver_cases (mw_cfg m) (mw_clock m) r j relay h) as [H|(Hv & Hcases)].
   - (* refused *)
     rewrite (Hfaith _ eq_refl). rewrite H. reflexivity.
@@ -715,6 +715,44 @@ Proof.
            rewrite Hloc, Eu, !String.eqb_refl. reflexivity.
         -- exfalso. eapply find_none in Efind; [|exact Hg_in]. simpl in Efind.
            rewrite Hgi, String.eqb_refl, wire_eqb_refl, Hgl in Efind. discriminate.
+Qed.
+
+(* a fresh valid answer to an own live flow without RelayState is accepted, to the default *)
+Lemma own_presented_default m r j h :
+  flows_ok m -> codec_wf (m_tcodec (mw_cfg m)) ->
+  r_ok r = true -> response_fresh (mw_cfg m) (mw_clock m) r = true -> own_flow_presented m j (r_irt r) = true ->
+  deliver (mw_cfg m) (mw_clock m) r j "" h
+  = accept_reply (mw_cfg m) (mw_clock m) r h (m_default_redirect (mw_cfg m)) [].
+Proof.
+  intros Hok Hwf Hrok Hfr Hown. unfold own_flow_presented in Hown.
+  apply existsb_exists in Hown. destruct Hown as (f & Hf & Hp).
+  apply andb_true_iff in Hp; destruct Hp as [Hp Hl]. apply andb_true_iff in Hp; destruct Hp as [Hid Hin].
+  apply String.eqb_eq in Hid. apply existsb_exists in Hin. destruct Hin as ([n w] & Hnw & Hq). simpl in Hq.
+  apply andb_true_iff in Hq; destruct Hq as [Hn Hw]. apply String.eqb_eq in Hn. apply wire_eqb_eq in Hw. subst n w.
+  destruct (Hok f Hf) as [Hc _].
+  assert (Hdec : decode_tracking (m_tcodec (mw_cfg m)) (mw_clock m) (fl_cookie f) = Some (flow_tracked f)).
+  { rewrite Hc. apply tracking_lifetime; [assumption|]. apply flow_live_iff, Hl. }
+  assert (Hv : sp_verdict (mw_cfg m) (mw_clock m) (possible_ids (mw_cfg m) (mw_clock m) j) r = true).
+  { unfold sp_verdict. rewrite Hrok, Hfr. simpl. apply orb_true_iff. right. apply mem_str_in.
+    unfold possible_ids. apply in_or_app. right. rewrite <- Hid.
+    apply in_map_iff. exists (flow_tracked f). split; [reflexivity|]. apply gtr_in.
+    exists (m_prefix (mw_cfg m) +++ fl_index f), (fl_cookie f). split; [exact Hnw|].
+    split; [apply prefixb_app|]. split; [exact Hdec|]. unfold index_of_name. rewrite drop_app. reflexivity. }
+  unfold deliver. fold (possible_ids (mw_cfg m) (mw_clock m) j). rewrite Hv. reflexivity.
+Qed.
+
+Lemma deliver_spec m r j relay h :
+  flows_ok m -> cfg_wf (mw_cfg m) -> jar_ok m j ->
+  spec_step m (Deliver r j relay h) (project (deliver (mw_cfg m) (mw_clock m) r j relay h)) = true.
+Proof.
+  intros Hok Hcw Hj. cbn [spec_step]. rewrite deliver_spec_core by assumption. simpl.
+  unfold default_delivery_clause.
+  destruct (negb (nonempty relay) && r_ok r && response_fresh (mw_cfg m) (mw_clock m) r && own_flow_presented m j (r_irt r)) eqn:E; [|reflexivity].
+  apply andb_true_iff in E; destruct E as [E Hown]. apply andb_true_iff in E; destruct E as [E Hfr].
+  apply andb_true_iff in E; destruct E as [Hne Hrok]. apply negb_true_iff in Hne.
+  assert (relay = "") as -> by (destruct relay; [reflexivity | discriminate Hne]).
+  destruct Hcw as (_ & _ & _ & Hwf).
+  rewrite (own_presented_default m r j h Hok Hwf Hrok Hfr Hown). simpl. rewrite String.eqb_refl. reflexivity.
 Qed.
 
 Lemma model_step_spec m act :
